@@ -225,9 +225,6 @@ package bridgesync
 //@   modifies nothing
 //@   ensures result1 != nil ==> result0 == nil
 //@   ensures result1 == nil ==> result0 != nil
-//@ func (p *processor) rollbackTransaction (p, tx)
-//@   trusted
-//@   modifies nothing
 //@ extern github.com/russross/meddler.ScanAll (rows, dst)
 //@   modifies heap
 //@ extern github.com/agglayer/aggkit/db.SlicePtrsToSlice (slice)
